@@ -247,6 +247,7 @@ func TestC05Replay(t *testing.T) {
 			}
 			who := s.agents[client].id
 			var submit func() error
+			var submitRespelled func(how string) error
 			switch endpoint {
 			case "update":
 				req := pool.UpdateRequest{PeerInfo: peerInfos([]string{hostID}, false), BlockNumber: 7}
@@ -290,11 +291,13 @@ func TestC05Replay(t *testing.T) {
 				n := s.nonce(w.addr)
 				sig := mustSign(w.key, "pool_withdraw", w.addr, n)
 				submit = func() error { return s.pay.Withdraw(rpcCtx(), sig, w.addr, n) }
+				submitRespelled = func(how string) error { return s.pay.Withdraw(rpcCtx(), sig, respell(w.addr, how), n) }
 			case "addNode":
 				n := s.nonce(w.addr)
 				target := s.agents[client].id.nodeID
 				sig := mustSign(w.key, "pool_addNode", w.addr, n, target)
 				submit = func() error { return s.pay.AddNode(rpcCtx(), sig, w.addr, n, target) }
+				submitRespelled = func(how string) error { return s.pay.AddNode(rpcCtx(), sig, respell(w.addr, how), n, target) }
 			}
 			delayClass := "0"
 			if mode == "race" {
@@ -349,6 +352,17 @@ func TestC05Replay(t *testing.T) {
 			before := s.digest()
 			err := submit()
 			after := s.digest()
+			// the same captured request with the identity spelled in another hex case is a replay too
+			if submitRespelled != nil && before == after && classifyErr(err).Kind == "verify" {
+				for _, how := range []string{"lower", "upper", "mixed"} {
+					if e2 := submitRespelled(how); classifyErr(e2).Kind != "verify" {
+						rt.Fatalf("captured %s re-submitted with the identity in %s-case hex was honoured again: err=%v", endpoint, how, e2)
+					}
+				}
+				if after2 := s.digest(); after2 != before {
+					rt.Fatalf("re-spelled replay of %s changed the pool state:\n%s", endpoint, diffDigest(before, after2))
+				}
+			}
 			// (a replayed legacy-form update is reported with the error of the first, new-form attempt: "bad signature")
 			if classifyErr(err).Kind != "verify" || (endpoint != "updateLegacy" && !strings.Contains(err.Error(), "invalid nonce")) {
 				rt.Fatalf("replayed %s (%s, delay %s) was not refused as a replay: err=%v", endpoint, mode, delayClass, err)
